@@ -158,6 +158,52 @@ def replay_fsc(cex):
     return len(bad) > 0, {"problems": dict(list(bad.items())[:5]), "n": len(bad)}
 
 
+def replay_loader_fsc(cex):
+    """installed library: loader.fsc_with_halfmaps with an explicit and the default shell width on odd / even / non-cubic boxes, n_set = 1 and 3, with and without a mask:
+    column FSC-i is the FSC of the i-th pair of half maps it returns, on shells of exactly the requested width"""
+    from acryo import SubtomogramLoader, Molecules
+
+    rng = np.random.default_rng(3)
+    tomo = rng.normal(size=(40, 40, 40)).astype(np.float32)
+    mole = Molecules(rng.uniform(12, 27, size=(9, 3)))
+    bad = {}
+
+    def ref_fsc(a, b, dfreq):
+        fa, fb = np.fft.fftn(a), np.fft.fftn(b)
+        fr = np.sqrt(sum(f ** 2 for f in np.meshgrid(*[np.fft.fftfreq(n) for n in a.shape], indexing="ij")))
+        lab = np.floor(fr / dfreq + 1e-9).astype(int)
+        out = []
+        for i in range(lab.max()):
+            sel = lab == i
+            out.append((fa[sel] * np.conj(fb[sel])).real.sum() / np.sqrt((np.abs(fa[sel]) ** 2).sum() * (np.abs(fb[sel]) ** 2).sum()) if sel.any() else np.nan)
+        return np.array(out)
+
+    for shape in ((9, 9, 9), (8, 8, 8), (7, 10, 8), (5, 5, 5)):
+        for dfreq in (None, 0.12, 0.21, 0.25):
+            for n_set in (1, 3):
+                for use_mask in (False, True):
+                    ld = SubtomogramLoader(tomo, mole, order=1, output_shape=shape)
+                    mask = (rng.uniform(0.3, 1.0, size=shape)).astype(np.float32) if use_mask else None
+                    try:
+                        df, halves, mk = ld.fsc_with_halfmaps(mask=mask, seed=0, n_set=n_set, dfreq=dfreq, squeeze=False)
+                    except Exception as e:
+                        bad[f"{shape},dfreq={dfreq},n_set={n_set}"] = repr(e)[:120]
+                        continue
+                    d = (1.5 / min(shape)) if dfreq is None else dfreq
+                    freq = df["freq"].to_numpy()
+                    tag = f"{shape},dfreq={dfreq},n_set={n_set},mask={use_mask}"
+                    if not np.allclose(freq, (np.arange(len(freq)) + 0.5) * d, atol=1e-6):
+                        bad[tag + ": shell centres"] = [freq[:3].round(4).tolist(), ((np.arange(3) + 0.5) * d).round(4).tolist()]
+                        continue
+                    m_ = 1.0 if mk is None else np.asarray(mk)
+                    for i in range(n_set):
+                        want = ref_fsc(np.asarray(halves[0][i]) * m_, np.asarray(halves[1][i]) * m_, d)
+                        got = df[f"FSC-{i}"].to_numpy()
+                        if len(got) != len(want) or not np.allclose(got, want, atol=2e-4, equal_nan=True):
+                            bad[tag + f": FSC-{i}"] = True
+    return len(bad) > 0, {"problems": dict(list(bad.items())[:5]), "n": len(bad)}
+
+
 def sec_shell(rec, shape=(2, 2, 2), dfreq=0.5, patches=None):
     L = _load(patches)
     U = L["acryo._utils"]
@@ -344,7 +390,7 @@ def run(tier, procs=None, only=None):
 
 
 # every real-library oracle of this property (each returns (reproduced, detail)); used to confirm structural facts that carry no replay of their own
-ALL_REPLAYS = [replay_fsc]
+ALL_REPLAYS = [replay_fsc, replay_loader_fsc]
 
 
 def replay(data):
